@@ -301,7 +301,8 @@ def scenarios_of(item):
         alpha += [["R", list(readable)]]
         for m in range(2, SEQ_C + 1):
             for ops in itertools.product(alpha, repeat=m):
-                if sum(1 for o in ops if o[0] in "Ww") >= 2:
+                # (also read - write - read: a value read earlier must not stand in for what a layer returns now)
+                if sum(1 for o in ops if o[0] in "Ww") >= 2 or (m == 3 and ops[0][0] == "R" and ops[2][0] == "R" and ops[1][0] in "Ww"):
                     yield dict(base, ops=[list(o) for o in ops])
     else:
         for op in singles:
